@@ -300,8 +300,13 @@ def XNPV(
     https://support.microsoft.com/en-us/office/
         xnpv-function-1b42bbf6-370f-4532-a0eb-d67c16b664b7
     """
-    values = values.flatten(func_xltypes.Number, None)
-    dates = dates.flatten(func_xltypes.DateTime, None)
+    # Only drop what could not be cast: the default filter(None, ...) of
+    # flatten would also drop every cash flow of zero.
+    def castable(item):
+        return item is not None
+
+    values = values.flatten(func_xltypes.Number, castable)
+    dates = dates.flatten(func_xltypes.DateTime, castable)
 
     # TODO: Ignore non numeric cells and boolean cells.
     if len(values) != len(dates):
